@@ -756,3 +756,46 @@ def init_check(I, scope, outcome):
     added = [e[2] for e in I.trace if e[0] == 'add_node' and e[1] is hg]
     p.oblige(f'{L}::post::C02-every-node-of-the-full-graph-is-a-node-of-the-hard-graph', ok and all(any(a is n for a in added) for n in I.node_list), kind='post',
              meta={'expr': 'for node in full_graph.nodes(): hard_graph.add_node(node)'})
+
+
+# ---------------------------------------------------------------------------------------
+# QueueScheduling.__init__ : every backend owns its queue
+def make_backend_init_world():
+    w = sw.make_world()
+    w.class_models['Backend'] = Backend(w)
+    w.class_models['Queue'] = WQueue(w)
+    w.globals['Queue'] = SClass('Queue')
+    w.construct_hooks['Queue'] = lambda I, args, kwargs: I.alloc('Queue', {'maxsize': (args[0] if args else kwargs.get('maxsize', 0))})
+    return w
+
+
+def backend_init_contract():
+    return Contract(QF, 'QueueScheduling.__init__', params={'n_workers': 'Int'}, signals={})
+
+
+def backend_init_setup(I, scope):
+    I.trace = []
+    scope.set('self', I.alloc('Backend', {}))
+
+
+def backend_init_check(I, scope, outcome):
+    p = I.path
+    L = f'{QF}::QueueScheduling.__init__'
+    if outcome[0] != 'return':
+        return
+    me = scope.lookup('self')
+    f = I.heap[me.oid]['fields']
+    q = f.get('queue')
+    # Python evaluates default parameter values once, when the function is defined: an object built in a default value exists before
+    # the call (the harness evaluates the defaults before taking the entry snapshot), so it is shared by every backend that uses the default
+    own = isinstance(q, SObj) and q.cls == 'Queue' and q.oid not in I.entry_heap
+    p.oblige(f'{L}::post::C03-every-backend-owns-a-queue-created-by-its-constructor', own, kind='post',
+             meta={'expr': 'self.queue is a Queue allocated during this call (not a parameter, not a default value, not a module-level object)'})
+    if own:
+        ms = I.getfield(q, 'maxsize')
+        unbounded = (isinstance(ms, int) and ms <= 0) or (isinstance(ms, SV) and False)
+        p.oblige(f'{L}::post::C03-the-queue-is-unbounded', bool(unbounded), kind='post',
+                 meta={'expr': 'Queue(0): put() never blocks (the master puts tasks and sentinels while the workers may all be busy)'})
+    nw = f.get('n_workers')
+    p.oblige(f'{L}::post::C03-the-number-of-workers-is-the-one-requested', nw is scope.lookup('n_workers') or (isinstance(nw, SV) and nw.t.eq(scope.lookup('n_workers').t)), kind='post',
+             meta={'expr': 'self.n_workers == n_workers'})
